@@ -31,10 +31,23 @@
    Decomposition.
      (R) receiver:  C01_recv_*, C01_rx_map_exact, C01_pop_*, C01_delivery_stored,
                     C01_no_mixed_delivery (the C17 clause).
-     (S) sender:    C01_sender_structure, C01_sender_ids_increase (the C04
-                    clause), C01_sender_exact, C01_sender_strict, C01_send_ids,
+     (S) sender:    C01_sender_structure, C01_sender_ids_increase_partial /
+                    _refuted (the C04 clause), C01_sender_exact,
+                    C01_sender_strict_partial, C01_send_ids,
                     C01_no_refuse_sent, C01_sent_init_first, C01_success_acked.
-     (C) composition over the reliable FIFO channel: see the end of the file.
+     (C) composition: C01_safety / C01_success_after_complete over the channel
+         hypothesis "what an endpoint has acted on is a prefix of what its peer
+         emitted" (prefix (handled sB) (sent sA), and the reverse direction),
+         and C01_safety_end_to_end / C01_success_end_to_end where that
+         hypothesis is discharged by the C07 channel lemma from the hypothesis
+         on the octets: wire sA = received-by-B ++ rest (reliable FIFO stream),
+         plus its two side conditions (frames sent are well-formed; the contact
+         header is sent first and once).
+     Not proved here: liveness (that every queued bundle IS eventually
+     delivered under a fair schedule) -- the statements are safety statements
+     for every schedule; and the two side conditions of the channel lemma are
+     hypotheses of the end-to-end forms (they are checked on the concrete run
+     in C01_ex_end_to_end_hyps).
 
    Model finding (not a weakening): with a segment size of ZERO (peer
    segment MRU 0, or segment_size_tx_initial 0, or a SESS_INIT whose node id is
@@ -49,7 +62,8 @@
 From Coq Require Import List NArith Bool Sorted.
 Import ListNotations.
 From DTN Require Import Lib.Bytes Model.TcpclMsg Model.TcpclSess Model.TcpclXferSpec
-  Proofs.TcpclXferRecv Proofs.TcpclXferAbs Proofs.TcpclXferSend.
+  Proofs.TcpclMsgProofs Proofs.TcpclChannelProofs
+  Proofs.TcpclXferRecv Proofs.TcpclXferAbs Proofs.TcpclXferSend Proofs.TcpclXferProofs Proofs.TcpclXferE2E.
 Local Open Scope N_scope.
 
 (* ===================== (R) the receiver ===================== *)
@@ -113,6 +127,15 @@ Theorem C01_delivery_stored :
 Proof. exact delivery_stored. Qed.
 Print Assumptions C01_delivery_stored.
 
+(* the END-flagged XFER_ACKs an endpoint has sent are exactly its deliveries,
+   in order: one final acknowledgement per delivered transfer, with its length *)
+Theorem C01_end_acks_spec :
+  forall (c : cfg) (ops : list op),
+    end_acks (sent (run c ops))
+    = map (fun p => (fst p, N.of_nat (length (snd p)))) (deliver_spec (handled (run c ops))).
+Proof. exact end_acks_spec. Qed.
+Print Assumptions C01_end_acks_spec.
+
 (* C17 clause: whatever frames were acted on, each delivered (xid, d) is the
    concatenation of the data of the segments of ONE transfer id: a START
    segment of xid, then (among frames none of which is a START) the segments
@@ -158,14 +181,28 @@ Theorem C01_sender_structure :
 Proof. exact sender_structure. Qed.
 Print Assumptions C01_sender_structure.
 
-(* C04 clause: transfer ids are never reused (given segments that make progress) *)
-Theorem C01_sender_ids_increase :
+(* C04 clause: transfer ids are never reused.
+   Full-strength statement:
+       forall c ops, StronglySorted (fun a b => tr_id a < tr_id b)
+                                    (transfers_of (segs_of (sent (run c ops))))
+   It is FALSE of the faithful model (zero segment size: the same START
+   segment is emitted again and again): C01_sender_ids_increase_refuted.
+   Proved: the statement for every run whose START segments make progress
+   (_partial); unconditionally, ids never decrease and strictly increase after
+   every complete transfer (last clause of C01_sender_structure). *)
+Theorem C01_sender_ids_increase_refuted :
+  exists (c : cfg) (ops : list op),
+    ~ StronglySorted (fun a b => tr_id a < tr_id b) (transfers_of (segs_of (sent (run c ops)))).
+Proof. exact sender_ids_increase_refuted. Qed.
+Print Assumptions C01_sender_ids_increase_refuted.
+
+Theorem C01_sender_ids_increase_partial :
   forall (c : cfg) (ops : list op),
     let sg := segs_of (sent (run c ops)) in
     Forall (fun g => has_start (xs_flags g) = true -> has_end (xs_flags g) = false -> xs_data g <> []) sg ->
     StronglySorted (fun a b => tr_id a < tr_id b) (transfers_of sg).
 Proof. exact sender_ids_increase. Qed.
-Print Assumptions C01_sender_ids_increase.
+Print Assumptions C01_sender_ids_increase_partial.
 
 (* if no XFER_REFUSE was handled: the complete transfers are exactly ids
    1..k carrying the first k queued bundles, byte for byte, in order *)
@@ -178,9 +215,11 @@ Theorem C01_sender_exact :
 Proof. exact sender_exact. Qed.
 Print Assumptions C01_sender_exact.
 
-(* with both hypotheses: a START segment only when no transfer is open, and
-   only the last transfer can be incomplete *)
-Theorem C01_sender_strict :
+(* with both premises (progress, no XFER_REFUSE handled): a START segment only
+   when no transfer is open, and only the last transfer can be incomplete.
+   (Without the first premise this fails on the same zero-segment-size run;
+   without the second a refused transfer is legitimately abandoned open.) *)
+Theorem C01_sender_strict_partial :
   forall (c : cfg) (ops : list op),
     let sg := segs_of (sent (run c ops)) in
     Forall (fun g => has_start (xs_flags g) = true -> has_end (xs_flags g) = false -> xs_data g <> []) sg ->
@@ -190,7 +229,7 @@ Theorem C01_sender_strict :
        (has_start (xs_flags g) = true -> fst (xfold pre) = None)) /\
     (forall ts t, transfers_of sg = ts ++ [t] -> Forall (fun t => tr_complete t = true) ts).
 Proof. exact sender_strict. Qed.
-Print Assumptions C01_sender_strict.
+Print Assumptions C01_sender_strict_partial.
 
 (* the k-th accepted send_bundle_data call returned transfer id k *)
 Theorem C01_send_ids :
@@ -220,6 +259,81 @@ Theorem C01_success_acked :
 Proof. exact success_acked. Qed.
 Print Assumptions C01_success_acked.
 
+(* ===================== (C) composition ===================== *)
+
+(* C01 safety.  A and B are the two ends of a session, each after an arbitrary
+   operation list.  If what each has acted on is a prefix of what the other has
+   emitted, then what B has delivered so far is, in order, exactly the transfer
+   ids 1..k carrying the first k bundles queued at A, byte for byte: nothing
+   truncated, duplicated, merged with another transfer, or reordered. *)
+Theorem C01_safety :
+  forall (cA cB : cfg) (opsA opsB : list op),
+    (exists r, sent (run cA opsA) = handled (run cB opsB) ++ r) ->
+    (exists r, sent (run cB opsB) = handled (run cA opsA) ++ r) ->
+    let D := deliver_spec (handled (run cB opsB)) in
+    map fst D = map N.of_nat (seq 1 (length D)) /\
+    map snd D = firstn (length D) (queued cA opsA).
+Proof. exact C01_safety_core. Qed.
+Print Assumptions C01_safety.
+
+(* the same when only the forward channel hypothesis is available, given that
+   A has handled no XFER_REFUSE *)
+Theorem C01_safety_no_refuse :
+  forall (cA cB : cfg) (opsA opsB : list op),
+    (exists r, sent (run cA opsA) = handled (run cB opsB) ++ r) ->
+    Forall (fun f => is_refuse f = false) (handled (run cA opsA)) ->
+    let D := deliver_spec (handled (run cB opsB)) in
+    map fst D = map N.of_nat (seq 1 (length D)) /\
+    map snd D = firstn (length D) (queued cA opsA).
+Proof. exact safety_no_refuse. Qed.
+Print Assumptions C01_safety_no_refuse.
+
+(* The sender reports success only after the receiver holds the complete
+   bundle: a successful "send finished" signal for (id, len) at A implies that
+   B has delivered transfer id with exactly the bundle queued under id. *)
+Theorem C01_success_after_complete :
+  forall (cA cB : cfg) (opsA opsB : list op),
+    (exists r, sent (run cA opsA) = handled (run cB opsB) ++ r) ->
+    (exists r, sent (run cB opsB) = handled (run cA opsA) ++ r) ->
+    forall id len : N,
+    In (ESig SigSendFinished [PStrNum id; PInt len; PStr RES_SUCCESS]) (trace (run cA opsA)) ->
+    exists d, bundle_of (queued cA opsA) id = Some d /\ len = N.of_nat (length d) /\
+              In (id, d) (deliver_spec (handled (run cB opsB))).
+Proof. exact C01_success_core. Qed.
+Print Assumptions C01_success_after_complete.
+
+(* End to end: the channel hypotheses replaced by the hypothesis on the octet
+   streams (what each side has read is a prefix of what the other side's socket
+   accepted), through the C07 channel lemma. *)
+Theorem C01_safety_end_to_end :
+  forall (cA cB : cfg) (opsA opsB : list op),
+    (exists rest, wire (run cA opsA) = received (init cB) opsB ++ rest) ->
+    (exists rest, wire (run cB opsB) = received (init cA) opsA ++ rest) ->
+    Forall wf_frame (sent (run cA opsA)) ->
+    Forall wf_frame (sent (run cB opsB)) ->
+    (sent (run cA opsA) = [] \/ exists h ms, sent (run cA opsA) = FContact h :: map FMsg ms) ->
+    (sent (run cB opsB) = [] \/ exists h ms, sent (run cB opsB) = FContact h :: map FMsg ms) ->
+    let D := deliver_spec (handled (run cB opsB)) in
+    map fst D = map N.of_nat (seq 1 (length D)) /\
+    map snd D = firstn (length D) (queued cA opsA).
+Proof. exact C01_safety_e2e. Qed.
+Print Assumptions C01_safety_end_to_end.
+
+Theorem C01_success_end_to_end :
+  forall (cA cB : cfg) (opsA opsB : list op),
+    (exists rest, wire (run cA opsA) = received (init cB) opsB ++ rest) ->
+    (exists rest, wire (run cB opsB) = received (init cA) opsA ++ rest) ->
+    Forall wf_frame (sent (run cA opsA)) ->
+    Forall wf_frame (sent (run cB opsB)) ->
+    (sent (run cA opsA) = [] \/ exists h ms, sent (run cA opsA) = FContact h :: map FMsg ms) ->
+    (sent (run cB opsB) = [] \/ exists h ms, sent (run cB opsB) = FContact h :: map FMsg ms) ->
+    forall id len : N,
+    In (ESig SigSendFinished [PStrNum id; PInt len; PStr RES_SUCCESS]) (trace (run cA opsA)) ->
+    exists d, bundle_of (queued cA opsA) id = Some d /\ len = N.of_nat (length d) /\
+              In (id, d) (deliver_spec (handled (run cB opsB))).
+Proof. exact C01_success_e2e. Qed.
+Print Assumptions C01_success_end_to_end.
+
 (* ===================== non-vacuity: a concrete two-endpoint run ===================== *)
 (* A (active, segment size 3) queues a 7-octet bundle (three segments), an
    empty bundle and a one-octet bundle; B (passive) is fed A's frames. *)
@@ -231,7 +345,8 @@ Definition ex_opsA : list op :=
   [OStart; ORx ex_hello_B; OSend [1;2;3;4;5;6;7]; OSend []; OSend [9]]
   ++ concat (repeat [OPQ; OTxPump true 65536; OTxPump false 65536] 8).
 Definition ex_sA : ep := run ex_cA ex_opsA.
-Definition ex_opsB : list op := [ORx (concat (map encode_frame (sent ex_sA))); OPop 2; OPop 2].
+Definition ex_opsB : list op :=
+  [ORx (concat (map encode_frame (sent ex_sA))); OTxPump true 65536; OTxPump false 65536; OPop 2; OPop 2].
 Definition ex_sB : ep := run ex_cB ex_opsB.
 
 Example C01_ex_queued : queued ex_cA ex_opsA = [[1;2;3;4;5;6;7]; []; [9]].
@@ -252,6 +367,41 @@ Proof. vm_compute. reflexivity. Qed.
 Example C01_ex_pop : pop_events (trace ex_sB) = [(2, [])]
   /\ last (trace ex_sB) EClosed = EExc EX_KEY /\ map fst (rx_map ex_sB) = [1; 3].
 Proof. vm_compute. repeat split; reflexivity. Qed.
+
+(* A then reads B's acknowledgements: success for all three, and both channel
+   hypotheses hold on this pair of runs *)
+Definition ex_opsA2 : list op :=
+  ex_opsA ++ [ORx (concat (map encode_frame (skipn 2 (sent ex_sB))))].
+Definition ex_sA2 : ep := run ex_cA ex_opsA2.
+Example C01_ex_channel_hyps :
+  (exists r, sent ex_sA2 = handled ex_sB ++ r) /\ (exists r, sent ex_sB = handled ex_sA2 ++ r).
+Proof. split; exists []; vm_compute; reflexivity. Qed.
+Example C01_ex_success :
+  succ_events (trace ex_sA2) = [(1, 7); (2, 0); (3, 1)]
+  /\ end_acks (sent ex_sB) = [(1, 7); (2, 0); (3, 1)].
+Proof. vm_compute. split; reflexivity. Qed.
+Definition ex_msgs (l : list frame) : list msg :=
+  flat_map (fun f => match f with FMsg m => [m] | FContact _ => [] end) l.
+Example C01_ex_end_to_end_hyps :
+  wire ex_sA2 = received (init ex_cB) ex_opsB ++ []
+  /\ wire ex_sB = received (init ex_cA) ex_opsA2 ++ []
+  /\ Forall wf_frame (sent ex_sA2) /\ Forall wf_frame (sent ex_sB)
+  /\ sent ex_sA2 = FContact (mkContact MAGIC 4 0) :: map FMsg (ex_msgs (sent ex_sA2))
+  /\ sent ex_sB = FContact (mkContact MAGIC 4 0) :: map FMsg (ex_msgs (sent ex_sB)).
+Proof.
+  assert (WC : wf_contact (mkContact MAGIC 4 0)).
+  { repeat split; try reflexivity. apply wf_bytesb_spec. reflexivity. }
+  assert (EA : sent ex_sA2 = FContact (mkContact MAGIC 4 0) :: map FMsg (ex_msgs (sent ex_sA2)))
+    by (vm_compute; reflexivity).
+  assert (EB : sent ex_sB = FContact (mkContact MAGIC 4 0) :: map FMsg (ex_msgs (sent ex_sB)))
+    by (vm_compute; reflexivity).
+  split; [vm_compute; reflexivity|]. split; [vm_compute; reflexivity|].
+  split; [|split; [|split; assumption]].
+  - rewrite EA. constructor; [exact WC|]. apply Forall_map.
+    apply wf_msgs_forallb. vm_compute. reflexivity.
+  - rewrite EB. constructor; [exact WC|]. apply Forall_map.
+    apply wf_msgs_forallb. vm_compute. reflexivity.
+Qed.
 
 (* the zero-segment-size run: the peer announces segment MRU 0 *)
 Definition ex_hello_mru0 : bytes :=
